@@ -60,6 +60,7 @@ Definition rd_count (rp : string) (root : value) (name : string) : obs :=
 Inductive op :=
 | OpSet (name : string) (idx : Z) (v : value)                         (* SetBool/Int/Uint/Float/String *)
 | OpSetChild (name : string) (idx : Z) (v : value) (ov : option string) (* SetChild *)
+| OpSetChildNil (name : string) (idx : Z)                             (* SetChild with a nil *Config: refused *)
 | OpRemove (name : string) (idx : Z)
 | OpMerge (h : N) (b : value).                                         (* Merge of a normalized source *)
 
@@ -80,6 +81,7 @@ Definition apply_op (o : popts) (rp : string) (root : value) (p : op) : obs * va
     | Panic => (OPanic, root)
     | OutOfModel => (OSkip, root)
     end
+  | OpSetChildNil _ _ => (OE ENilConfig "", root)
   | OpRemove name idx =>
     match remove_value o rp name idx root with
     | Ok (b, r) => (OV (VBool b), r)
